@@ -329,9 +329,14 @@ func checkLarge(c LargeCase) error {
 	if c.ToFile {
 		args = append(args, "-o", "nni.out")
 	}
-	r := cli.Run(dir, in, args...)
+	extra, stdin, infiles, _ := cli.Present(cli.InModes[len(c.Tree.Tips())%len(cli.InModes)], in, "-i")
+	for name, content := range infiles {
+		cli.Write(dir, name, content)
+	}
+	args = append(args, extra...)
+	r := cli.Run(dir, stdin, args...)
 	if r.Code != 0 || r.TimedOut {
-		return fmt.Errorf("gotree nni exited with %d: %s", r.Code, r.Stderr)
+		return fmt.Errorf("gotree %v exited with %d: %s", args, r.Code, r.Stderr)
 	}
 	out := r.Stdout
 	if c.ToFile {
@@ -359,7 +364,7 @@ func clip(s string) string {
 func TestC17CliLarge(t *testing.T) {
 	h.Run(t, h.Spec[LargeCase]{
 		Property: "C17", Name: "cli-large", Quick: 24, Thorough: 480,
-		Rule: "`gotree nni` (stdout or -o file, the tree once or twice in the stream) on binary trees with 70-140 tips, lengths and supports: the output (0.3-2 MB) must be exactly the library's neighbour list, line by line; every case is non-trivial",
+		Rule: "`gotree nni` (stdout or -o file, the tree once or twice in the stream, handed over on stdin, in a file, in a gzip file or as a Nexus document) on binary trees with 70-140 tips, lengths and supports: the output (0.3-2 MB) must be exactly the library's neighbour list, line by line; every case is non-trivial",
 		Gen: func(t *rapid.T, thorough bool) LargeCase {
 			n := rapid.IntRange(70, 140).Draw(t, "ntips")
 			o := gen.Opts{MinTips: n, MaxTips: n, NoOver64: true, Rooted: -1, MaxDeg: 2, Lens: gen.All, LenVals: gen.Arbitrary, Sups: gen.AnyPresence}
